@@ -208,6 +208,11 @@ def run_case(case, ctx):
             if rng.random() < 0.2:
                 text = rng.choice(["", " ", "\n", "x"]) + text + rng.choice(["", "\n", " "])
                 exp = None
+            if sep == "\n" and exp is not None and rng.random() < 0.15 and any(t in "SE" for t in seq):
+                # markers in a trailing comment behind a very long line of code (minified source, embedded data)
+                long_code = "x = '" + "a" * rng.choice([1030, 1100, 2100, 5000]) + "'  "
+                text = "\n".join((long_code + ln) if (START in ln or END in ln) else ln for ln in text.split("\n"))
+                res.cell("markers-beyond-column-1024")
             check_text(text, exp if sep == "\n" else None, res, ex, "random")
             if any(t in "SE" for t in seq) and any(t in "LCB" for t in seq):
                 res.sigs.add(short_hash("".join(seq), commented, repr(sep)))
